@@ -156,6 +156,33 @@ def run(chk: Check, repo: Repo) -> None:
     sa = [c for c in calls(sd.node) if method_name(c) == "SecureAPDU"]
     ok = len(sa) == 1 and {k.arg: ast.unparse(k.value) for k in sa[0].keywords}.get("scf") == ast.unparse(ks["scf"]) and ast.unparse(kr["scf"]).endswith(".scf")
     chk.ob("caller-agreement", sd.site(), ok, "the SCF used for securing is the one transmitted in the SecureAPDU, and the receiver verifies with the received SCF", key="caller|scf")
+    # delivered payload is marked secure: is_data_secure(frame) <=> payload is a SecureAPDU (whatever the algorithm)
+    from ..absmachine import AbsMachine, Obj, class_isinstance
+    from ..cfg import CFG
+    from ..exctable import ExcTable
+    from ..explore import Explorer
+    from ..loader import EnumMember
+    ids = repo.func(DS, "is_data_secure")
+    chk.unit(ids)
+    cfg_i = CFG(ids.node)
+    p0 = ids.node.args.args[0].arg
+    algos = repo.enum_members(repo.cls(ASDU, "SecurityAlgorithmIdentifier"))
+    cases = [(f"SecureAPDU/{a}", Obj("SecureAPDU", a, (("scf", Obj("SecurityControlField", a, (("algorithm", EnumMember(f"{ASDU}:SecurityAlgorithmIdentifier", a)),))),)), True) for a in algos]
+    cases += [("GroupValueWrite", Obj("GroupValueWrite", "p"), False), ("no payload", None, False)]
+    for label, payload, want in cases:
+        def hook(e, env):
+            import ast as _a
+            if isinstance(e, _a.Attribute):
+                v = repo.fold(e, ids.module, None)
+                if isinstance(v, EnumMember):
+                    return v
+            from ..absmachine import UNKNOWN
+            return UNKNOWN
+        am = AbsMachine(cfg_i, ExcTable(repo), lambda c, e: None, hook)
+        am.isinstance_fn = class_isinstance(repo)
+        paths = Explorer(cfg_i, repo, am.step).run(cfg_i.entry, [], {f"{p0}.payload": payload})
+        rets = {p.env.get("#ret") for p in paths if p.end == cfg_i.exit}
+        chk.ob("marked-secure-iff-secure-apdu", ids.site(), rets == {want}, f"is_data_secure(payload={label}) -> {sorted(map(str, rets))}; required {want}", key=f"is_data_secure|{label}")
     chk.rule("E10 sibling call-shape agreement (sender vs receiver arguments of the MAC / block_0 / counter_0 / CTR primitives, per algorithm, under a derived role map)")
     chk.assume("encrypt_data_ctr / decrypt_ctr are inverse for equal key and counter_0; calculate_message_authentication_code_cbc is deterministic (crypto primitives trusted)")
     chk.assume("bytes(x) of a bytes-like x is value-preserving")
